@@ -55,10 +55,12 @@ struct c06_session : public vsim_session {
       for (colvarbias *b : proxy->colvars->biases) {
         colvarbias_ti *ti = dynamic_cast<colvarbias_ti *>(b);
         if (!ti || !ti->ti_avg_forces) continue;
-        o << "TID " << b->name << " it=" << cvm::step_absolute();
+        o << "TID " << b->name << " it=" << cvm::step_absolute()
+          << " X=" << vs_hex(b->variables(0)->value()) << " TF=" << vs_hex(b->variables(0)->total_force())
+          << " FB=" << vs_hex(b->colvar_forces[0]) << " G=";
         std::vector<int> ix = ti->ti_count->new_index();
         for ( ; ti->ti_count->index_ok(ix); ti->ti_count->incr(ix)) {
-          o << " " << ti->ti_count->value(ix) << ":" << vs_hex(ti->ti_avg_forces->value(ix));
+          o << ti->ti_count->value(ix) << ":" << vs_hex(ti->ti_avg_forces->value(ix)) << ",";
         }
         o << "\n";
       }
